@@ -329,6 +329,45 @@ def ints_of(kind, arr):
     return [int(x) for x in arr]
 
 
+LAYOUTS = ["L:contig", "L:strided", "L:reversed", "L:col2d", "L:list", "L:wide"]
+
+
+def lay(arr, layout):
+    """The same values presented with another memory layout / container: a non-contiguous
+    view (every second element of a longer array, a reversed view, a column of a 2-D array)
+    of exactly the dtype the binding wants (so that no conversion copy is made), a Python
+    list, or a wider dtype.  The call must behave as for a fresh contiguous copy."""
+    import numpy as np
+    arr = np.ascontiguousarray(arr)
+    n = len(arr)
+    if layout == "L:strided":
+        big = np.empty(2 * n + 1, dtype=arr.dtype)
+        big[...] = arr[0] if n else 0
+        big[1::2] = np.roll(arr, 1) if n else arr      # junk between the real elements
+        big[0:2 * n:2] = arr
+        v = big[0:2 * n:2]
+    elif layout == "L:reversed":
+        v = np.ascontiguousarray(arr[::-1])[::-1]
+    elif layout == "L:col2d":
+        big = np.empty((n, 3), dtype=arr.dtype)
+        for k in range(3):
+            big[:, k] = np.roll(arr, k) if n else arr
+        v = big[:, 0]
+    elif layout == "L:list":
+        return [x.item() for x in arr] if arr.dtype.kind != "b" else [bool(x) for x in arr]
+    elif layout == "L:wide":
+        wide = {"i": np.int64, "u": np.uint64, "b": np.bool_, "f": np.float64}[arr.dtype.kind]
+        return arr.astype(wide) if arr.dtype != np.uint32 else arr.astype(np.int64)
+    else:
+        return arr
+    assert np.array_equal(np.ascontiguousarray(v).view(np.uint8), arr.view(np.uint8)), layout
+    return v
+
+
+def layout_of(op):
+    return op[-1] if isinstance(op[-1], str) and op[-1].startswith("L:") else "L:contig"
+
+
 class Impl:
     def __init__(self, name, incr):
         import tskit
@@ -379,16 +418,18 @@ class Impl:
         ragged = [[ints_of(kind, d[cn]), [int(x) for x in d[cn + "_offset"]]] for cn, kind, _ in self.ragged]
         return {"n": int(t.num_rows), "max_rows": int(t.max_rows), "f": fixed, "r": ragged}
 
-    def cols_kwargs(self, cols):
+    def cols_kwargs(self, cols, layout="L:contig"):
         import numpy as np
         kw = {}
+        if layout == "L:wide":
+            layout = "L:contig"        # a wider dtype is a different value domain for columns
         for (cn, kind), v in zip(self.fixed, cols["f"]):
             if v is not None:
-                kw[cn] = np_of(kind, v)
+                kw[cn] = lay(np_of(kind, v), layout)
         for (cn, kind, _), r in zip(self.ragged, cols["r"]):
             if r is not None:
-                kw[cn] = np_of(kind, r[0])
-                kw[cn + "_offset"] = np.array(r[1], dtype=np.uint64)
+                kw[cn] = lay(np_of(kind, r[0]), layout)
+                kw[cn + "_offset"] = lay(np.array(r[1], dtype=np.uint64), layout)
         return kw
 
     def build(self, rows):
@@ -408,10 +449,12 @@ class Impl:
             return self.canon_row(t[op[1]])
         if k == "slice":
             return self.canon_table(t[slice(op[1], op[2], op[3])])
+        L = layout_of(op)
         if k == "mask":
-            return self.canon_table(t[np.array(op[1], dtype=bool)])
+            m = lay(np.array(op[1], dtype=bool), L if L != "L:list" or op[1] else "L:contig")
+            return self.canon_table(t[m])
         if k == "ids":
-            return self.canon_table(t[list(op[1])] if op[1] else t[np.array([], dtype=np.int32)])
+            return self.canon_table(t[lay(np.array(op[1], dtype=np.int32), L if L != "L:list" or op[1] else "L:contig")])
         if k == "iter":
             return [self.canon_row(r) for r in t]
         if k == "setitem":
@@ -424,15 +467,15 @@ class Impl:
             t.truncate(op[1])
             return None
         if k == "keep_rows":
-            return [int(x) for x in t.keep_rows(np.array(op[1], dtype=bool))]
+            return [int(x) for x in t.keep_rows(lay(np.array(op[1], dtype=bool), L))]
         if k == "clear":
             t.clear()
             return None
         if k == "set_columns":
-            t.set_columns(**self.cols_kwargs(op[1]))
+            t.set_columns(**self.cols_kwargs(op[1], L))
             return None
         if k == "append_columns":
-            t.append_columns(**self.cols_kwargs(op[1]))
+            t.append_columns(**self.cols_kwargs(op[1], L))
             return None
         if k == "packset":
             cn, kind, is_str = self.ragged[op[1]]
@@ -450,13 +493,13 @@ class Impl:
             kind, j, which, vals = op[1], op[2], op[3], op[4]
             if kind == "f":
                 cn, ck = self.fixed[j]
-                setattr(t, cn, np_of(ck, vals))
+                setattr(t, cn, lay(np_of(ck, vals), L if L != "L:wide" else "L:contig"))
             else:
                 cn, ck, _ = self.ragged[j]
                 if which == "data":
-                    setattr(t, cn, np_of(ck, vals))
+                    setattr(t, cn, lay(np_of(ck, vals), L if L != "L:wide" else "L:contig"))
                 else:
-                    setattr(t, cn + "_offset", np.array(vals, dtype=np.uint64))
+                    setattr(t, cn + "_offset", lay(np.array(vals, dtype=np.uint64), L))
             return None
         if k == "drop_metadata":
             t.drop_metadata(keep_schema=bool(op[1]))
@@ -471,7 +514,7 @@ class Impl:
             return res
         if k == "extend":
             other = self.build(op[1])
-            t.ll_table.extend(other.ll_table, row_indexes=np.array(op[2], dtype=np.int32))
+            t.ll_table.extend(other.ll_table, row_indexes=lay(np.array(op[2], dtype=np.int32), L if L not in ("L:wide", "L:list") else "L:contig"))
             return None
         raise ValueError("unknown op %r" % (k,))
 
@@ -614,10 +657,17 @@ def gen_ops(rng, name, nops, p_bad=0.04, incr=0):
                ("drop_metadata", 1 if md is not None else 0), ("copy", 2), ("extend", 4)]
     names = [w[0] for w in weights]
     ws = [w[1] for w in weights]
+    retry = None
     for _ in range(nops):
         n = len(ref.rows)
         k = rng.choices(names, ws)[0]
         bad = rng.random() < p_bad
+        if retry is not None:
+            # error then reuse: a refused call is followed by the same operation with valid
+            # arguments on the same object
+            k, bad, retry = retry, False, None
+        elif bad and k in ("keep_rows", "extend", "set_columns", "append_columns", "setitem", "packset", "setattr"):
+            retry = k
         if k in ("add_row", "append"):
             op = [k, rand_row(rng, name, n + 1)]
         elif k == "getitem":
@@ -742,6 +792,8 @@ def gen_ops(rng, name, nops, p_bad=0.04, incr=0):
             if bad:
                 idx = idx + [rng.choice([m, -1, m + 3])] + ([0] if m and rng.random() < 0.5 else [])
             op = [k, other, idx]
+        if k in ("mask", "ids", "keep_rows", "extend", "set_columns", "append_columns", "setattr") and rng.random() < 0.6:
+            op.append(rng.choice(LAYOUTS))
         ops.append(op)
         before = [RefTable.copyrow(r) for r in ref.rows]
         try:
